@@ -49,13 +49,27 @@ def tokenise(text, respell):
         for j, w in enumerate(words):
             lw = w.lower()
             alts = number_alts(lw) if (not first and NUM.match(lw) and respell(block, [x.lower() for x in words], j)) else []
-            toks.append({'id': lw, 'w': lw, 'alts': alts, 'rep': 0, 'ok': bool(not first and j >= 2)})
+            toks.append({'id': lw, 'w': lw, 'alts': alts, 'rep': 0, 'ok': bool(not first and j >= 2),
+                         'val': int(lw) if re.match(r'^-?\d+$', lw) and abs(int(lw)) < 10000 else 0,
+                         'kind': '', 'n': 0, 'exp': [], 'jok': bool(j == 0 and re.match(r'^tr\d+$', lw) and len(words) == 13
+                                                                    and tr_row_is_default(words))})
         lines.append({'kind': 'text', 'lead': [], 'toks': toks, 'seps': [['b'] for _ in toks[1:]], 'amp': False,
                       'dollar': False, 'upper': False, 'frozen': first})
         first = False
     while lines and lines[-1]['kind'] == 'blank':
         lines.pop()
     return lines
+
+
+def tr_row_is_default(words):
+    """The last row of the TR matrix equals the cross product of the first two (what 3J defaults to)."""
+    try:
+        m = [float(x) for x in words[4:13]]
+    except ValueError:
+        return False
+    a, b, c = m[0:3], m[3:6], m[6:9]
+    cross = [a[1] * b[2] - a[2] * b[1], a[2] * b[0] - a[0] * b[2], a[0] * b[1] - a[1] * b[0]]
+    return all(abs(x - y) < 1e-12 for x, y in zip(cross, c))
 
 
 def blank():
